@@ -2,6 +2,7 @@ package rules
 
 import (
 	"fmt"
+	"go/token"
 	"sort"
 	"strings"
 
@@ -72,24 +73,151 @@ func runC18(p *core.Prog, r *core.Result) {
 	fn := m.Fn
 	targetEvents := map[string]bool{"TargetUpToDate": true, "TargetEvaluating": true, "TargetSucceeded": true, "TargetFailed": true}
 
-	// ---- R18.1 dataflow
-	in := map[*ssa.BasicBlock]int{fn.Blocks[0]: tsStart}
-	work := []*ssa.BasicBlock{fn.Blocks[0]}
-	stateAt := map[ssa.Instruction]int{}
-	for len(work) > 0 {
-		b := work[0]
-		work = work[1:]
-		st := in[b]
-		for _, ins := range b.Instrs {
-			stateAt[ins] |= st
-			if c, ok := ins.(*ssa.Call); ok && c.Call.IsInvoke() && targetEvents[c.Call.Method.Name()] && isInvoke(c, "Events", c.Call.Method.Name()) {
-				st = tsStep(st, c.Call.Method.Name())
+	// ---- R18.1 dataflow (helpers called from Evaluate are summarised: start state -> set of end states)
+	isTargetEvent := func(ins ssa.Instruction) (string, bool) {
+		c, ok := ins.(*ssa.Call)
+		if !ok || !c.Call.IsInvoke() || !targetEvents[c.Call.Method.Name()] || !isInvoke(c, "Events", c.Call.Method.Name()) {
+			return "", false
+		}
+		return c.Call.Method.Name(), true
+	}
+	emits := map[*ssa.Function]bool{}
+	for _, h := range m.Helpers {
+		core.Instrs(h, func(ins ssa.Instruction) {
+			if _, ok := isTargetEvent(ins); ok {
+				emits[h] = true
+			}
+		})
+	}
+	// flow returns the states at returns, split by whether the function's error result (if any) is nil or not:
+	// [0] = returns with a nil (or no) error, [1] = returns with a non-nil (or unknown) error.
+	errIndex := func(f *ssa.Function) int {
+		res := f.Signature.Results()
+		for i := res.Len() - 1; i >= 0; i-- {
+			if implementsError(res.At(i).Type()) {
+				return i
 			}
 		}
-		for _, s := range b.Succs {
-			if in[s]|st != in[s] {
-				in[s] |= st
-				work = append(work, s)
+		return -1
+	}
+	var flow func(f *ssa.Function, start int, record map[ssa.Instruction]int, depth int) [2]int
+	summaries := map[*ssa.Function]map[int][2]int{}
+	flow = func(f *ssa.Function, start int, record map[ssa.Instruction]int, depth int) [2]int {
+		in := map[*ssa.BasicBlock]int{f.Blocks[0]: start}
+		work := []*ssa.BasicBlock{f.Blocks[0]}
+		var end [2]int
+		ei := errIndex(f)
+		for len(work) > 0 {
+			b := work[0]
+			work = work[1:]
+			st := in[b]
+			// a helper call whose outcome split is still intact at the end of this block
+			var splitErr ssa.Value
+			var split [2]int
+			for _, ins := range b.Instrs {
+				if record != nil {
+					record[ins] |= st
+				}
+				if name, ok := isTargetEvent(ins); ok {
+					st = tsStep(st, name)
+					splitErr = nil
+					continue
+				}
+				if c, ok := ins.(*ssa.Call); ok && depth < 2 {
+					if h := core.Callee(c); h != nil && emits[h] {
+						var next [2]int
+						for _, s0 := range []int{tsStart, tsUpToDate, tsEvaluating, tsEvalSucceeded, tsEvalFailed, tsLoneFailed, tsBroken} {
+							if st&s0 == 0 {
+								continue
+							}
+							if summaries[h] == nil {
+								summaries[h] = map[int][2]int{}
+							}
+							if _, done := summaries[h][s0]; !done {
+								summaries[h][s0] = flow(h, s0, nil, depth+1)
+							}
+							next[0] |= summaries[h][s0][0]
+							next[1] |= summaries[h][s0][1]
+						}
+						st = next[0] | next[1]
+						if hi := errIndex(h); hi >= 0 {
+							split = next
+							splitErr = extractOf(c, hi)
+							if h.Signature.Results().Len() == 1 {
+								splitErr = c
+							}
+						}
+					}
+				}
+				if ret, ok := ins.(*ssa.Return); ok {
+					vals := core.RetVals(ret)
+					switch {
+					case ei < 0 || ei >= len(vals):
+						end[0] |= st
+					case core.IsNilConst(vals[ei]):
+						end[0] |= st
+					default:
+						// a variable error may be nil or not unless the facts say so
+						if nn, known := p.FactsAt(ret).ErrNonNil(vals[ei]); known && !nn {
+							end[0] |= st
+						} else if known && nn {
+							end[1] |= st
+						} else if _, isCall := vals[ei].(*ssa.Call); isCall {
+							end[1] |= st // freshly constructed error
+						} else {
+							end[0] |= st
+							end[1] |= st
+						}
+					}
+				}
+			}
+			for si, s := range b.Succs {
+				out := st
+				if splitErr != nil {
+					if iff, ok := b.Instrs[len(b.Instrs)-1].(*ssa.If); ok {
+						if bo, ok := iff.Cond.(*ssa.BinOp); ok && (bo.Op == token.NEQ || bo.Op == token.EQL) {
+							isErr := (bo.X == splitErr && core.IsNilConst(bo.Y)) || (bo.Y == splitErr && core.IsNilConst(bo.X))
+							if isErr {
+								nonNilEdge := (bo.Op == token.NEQ) == (si == 0)
+								if nonNilEdge {
+									out = split[1]
+								} else {
+									out = split[0]
+								}
+							}
+						}
+					}
+				}
+				if in[s]|out != in[s] {
+					in[s] |= out
+					work = append(work, s)
+				}
+			}
+		}
+		return end
+	}
+	stateAt := map[ssa.Instruction]int{}
+	flow(fn, tsStart, stateAt, 0)
+	// states inside emitting helpers, in the context(s) in which Evaluate calls them
+	for _, h := range m.Helpers {
+		if !emits[h] {
+			continue
+		}
+		ctx := 0
+		for _, c := range core.CallsTo(fn, h) {
+			ctx |= stateAt[c.(ssa.Instruction)]
+		}
+		if ctx != 0 {
+			flow(h, ctx, stateAt, 1)
+		}
+	}
+	// collect emission sites of Evaluate and its helpers
+	for _, h := range m.Helpers {
+		for _, c := range core.Calls(h) {
+			if call, ok := c.(*ssa.Call); ok {
+				if name, ok := isTargetEvent(call); ok {
+					m.Events[name] = append(m.Events[name], call)
+				}
 			}
 		}
 	}
@@ -107,7 +235,7 @@ func runC18(p *core.Prog, r *core.Result) {
 			}
 		}
 	}
-	r.Floor("R18.1", nEv, 6, "target event emission sites")
+	r.Floor("R18.1", nEv, 3, "target event emission sites")
 	depErr := func(v ssa.Value) bool {
 		// dep.Error: a load of field Error of a runner.Result
 		return core.LoadOfField(v, pkgRunner, "Result", "Error")
@@ -125,6 +253,49 @@ func runC18(p *core.Prog, r *core.Result) {
 					nn, known = p.FactsAt(ret).ErrNonNil(b.Y)
 				}
 				if known && nn {
+					onDepFailure = true
+				}
+			}
+		}
+		if !onDepFailure && m.DepsSite != nil {
+			// the dependency loop lives in a helper: its error result is non-nil only when a dependency failed
+			sigRes := m.DepsFn.Signature.Results()
+			for i := 0; i < sigRes.Len(); i++ {
+				if !implementsError(sigRes.At(i).Type()) {
+					continue
+				}
+				errV := extractOf(m.DepsSite, i)
+				if sigRes.Len() == 1 {
+					errV = m.DepsSite
+				}
+				nn, known := p.FactsAt(ret).ErrNonNil(errV)
+				if !(known && nn) {
+					continue
+				}
+				// every non-nil-error return of the helper is on a dependency-failed edge
+				all := true
+				for _, hr := range core.ReturnsOf(m.DepsFn) {
+					hv := core.RetVals(hr)
+					if i >= len(hv) || core.IsNilConst(hv[i]) {
+						continue
+					}
+					depFailed := false
+					for f := range p.FactsAt(hr) {
+						if b, ok := f.Cond.(*ssa.BinOp); ok && (depErr(b.X) || depErr(b.Y)) {
+							n1, k1 := p.FactsAt(hr).ErrNonNil(b.X)
+							if !k1 {
+								n1, k1 = p.FactsAt(hr).ErrNonNil(b.Y)
+							}
+							if k1 && n1 {
+								depFailed = true
+							}
+						}
+					}
+					if !depFailed {
+						all = false
+					}
+				}
+				if all {
 					onDepFailure = true
 				}
 			}
@@ -199,6 +370,30 @@ func runC18(p *core.Prog, r *core.Result) {
 			if targetEvents[name] && f != fn {
 				// forwarding wrappers (an Events implementation delegating to another Events) are not emitters
 				if f.Signature.Recv() != nil && f.Name() == name {
+					continue
+				}
+				// helpers that are only ever called from Evaluate (or from such helpers) are part of Evaluate
+				isHelper := false
+				for _, h := range m.Helpers {
+					if h == f {
+						isHelper = true
+						for _, cs := range p.StaticCallers(h) {
+							okCaller := cs.Parent() == fn
+							for _, h2 := range m.Helpers {
+								if cs.Parent() == h2 {
+									okCaller = true
+								}
+							}
+							if !okCaller {
+								isHelper = false
+							}
+						}
+						if len(p.FuncValueUses(h)) > 0 {
+							isHelper = false
+						}
+					}
+				}
+				if isHelper {
 					continue
 				}
 				nOther++
